@@ -131,7 +131,7 @@ func init() {
 		id:    "C14",
 		level: "model_checking",
 		rule: "every word of ≤ N segments (N=6 quick, 7 thorough) over the 8 segment kinds × IFS ∈ {unset, default, ' ,', ',', ':', '', 'é,', '|', ' x', '_~<nl>', '\\@'} × realisations {literal parts, $var parts, single-quoted}; " +
-			"plus histories on ONE environment: every sequence of ≤ 3 (thorough 4) IFS settings with 5 probe words (literal and through a variable) expanded after each change, and every pair (IFS₁, probe) → (IFS₂, word ≤ 3 characters over {a space , : é tab}); " +
+			"plus words of 1…40 repetitions of 9 segment units; plus histories on ONE environment: every sequence of ≤ 3 (thorough 4) IFS settings with 5 probe words (literal and through a variable) expanded after each change, and every pair (IFS₁, probe) → (IFS₂, word ≤ 3 characters over {a space , : é tab}); " +
 			"non-trivial = the rule yields ≥ 2 fields (the word really is cut), and every history",
 		assume: []string{"reference splitter written from the property statement (c14Ref)", "NoGlob set so that pathname expansion does not interfere; words are AST values (white space cannot be written literally)"},
 		run:    c14Run,
@@ -230,6 +230,34 @@ func c14Run(w *W) {
 		rec()
 	}
 	c14Histories(w, ifsList, n-3)
+	// long words: 1 … 40 repetitions of a unit of segments (field counts above 9, long runs of delimiters)
+	for rep := 1; rep <= 40; rep++ {
+		if !w.Mine() {
+			continue
+		}
+		w.Count("states", 1)
+		for _, unit := range [][]c14Seg{{{"a", false}, {" ", false}}, {{"a,", false}}, {{",", false}}, {{" ", false}}, {{"a", true}, {",", false}}, {{"", true}, {" ", false}}, {{"a b", true}}, {{"a", false}, {", ", false}}, {{"é:", false}}} {
+			var segs []c14Seg
+			for i := 0; i < rep; i++ {
+				segs = append(segs, unit...)
+			}
+			for _, ifs := range ifsList {
+				for real := 0; real < 3; real++ {
+					c := c14Case{IFS: ifs.v, IFSSet: ifs.set, Real: real, Segs: segs}
+					w.Count("evaluations", 1)
+					w.Count("long_words", 1)
+					w.Count("traces_validated_against_impl", 1)
+					d, nt := c14Judge(c)
+					if nt {
+						w.Count("distinct_nontrivial", 1)
+					}
+					if d != "" {
+						w.Violation("", c, d)
+					}
+				}
+			}
+		}
+	}
 }
 
 type c14Step struct {
